@@ -43,9 +43,10 @@ func (g *sm4GcmAsm) Open(dst, nonce, ciphertext, additionalData []byte) ([]byte,
 	ret := ensureCapacity(dst, len(ciphertext)-g.tagSize)
 
 	var tagMatch int
-	if ret != nil {
+	if len(ret) > len(dst) {
 		tagMatch = openAsm(&g.roundKeys[0], g.tagSize,&ret[len(dst)], nonce, ciphertext, additionalData, &temp[0])
 	}else{
+		// empty plaintext: nothing will be written, there is no first output byte to point at
 		tagMatch = openAsm(&g.roundKeys[0], g.tagSize,nil, nonce, ciphertext, additionalData, &temp[0])
 	}
 
@@ -59,7 +60,8 @@ func ensureCapacity(array []byte, asked int) (head []byte) {
 	res := needExpand(array, asked)
 	arrayLen := len(array)
 	if res == 0{
-		head = array
+		// enough spare capacity: the result shares the backing array and is dst extended by the output
+		head = array[:arrayLen+asked]
 	}else{
 		head = make([]byte,arrayLen+asked)
 		if arrayLen!=0 {
